@@ -236,7 +236,7 @@ func Harness_C37_tx_in_and_not() {
 }
 
 func Harness_C37_tx_date_var() {
-	d := []string{"2024-01-01T00:00:00Z", "2023-06-30T12:00:00Z"}[nondetChoice("d", 2)]
+	d := []string{"2024-01-01T00:00:00Z", "2023-06-30T12:00:00Z", "2024-01-01T00:00:01.250Z", "2024-02-29T23:59:59.999999Z"}[nondetChoice("d", 4)]
 	t, q := c37Shapes()
 	c37Check(queries.ResourceKindTransaction, `{"$lt":{"timestamp":"${d}"}}`, map[string]queries.VarDecl{"d": {Type: queries.TypeDate{}}},
 		map[string]any{"d": d}, query.Lt("timestamp", d), t, q, "id", c37Desc)
